@@ -57,7 +57,7 @@ class C07(HistoryCheck):
     PROP = "C07"
     LEVEL = "exploration"
     RUNS = {"quick": 1200, "thorough": 25000}
-    PROFILE = {"allow_frozen": False, "allow_class_dnc": False, "allow_init_false": False, "allow_post_init_keep": True}
+    PROFILE = {"allow_frozen": False, "allow_class_dnc": False, "allow_init_false": False, "allow_post_init_keep": True, "allow_post_copy_assign": True}
     OPGEN = {"p_bad": 0.12, "p_inplace": 0.35, "p_nested_target": 0.3, "exclude_fns": ["missing"], "p_returner": 0.3,
              "weights": {"new": 3, "scalar": 7, "element": 8, "toplevel": 4, "set": 3, "del": 2, "get": 1,
                          "deepcopy": 1.5, "nested": 2}}
